@@ -5,7 +5,12 @@ package driver
 import (
 	"github.com/sarchlab/akita/v4/mem/mem"
 	"github.com/sarchlab/akita/v4/mem/vm"
+	"github.com/sarchlab/akita/v4/sim"
+	"github.com/sarchlab/mgpusim/v4/amd/driver/internal"
+	"github.com/sarchlab/mgpusim/v4/amd/kernels"
+	"github.com/sarchlab/mgpusim/v4/amd/protocol"
 	verif "github.com/sarchlab/mgpusim/v4/zzverif"
+	"github.com/sarchlab/mgpusim/v4/zzverif/simstub"
 )
 
 // VerifMemRangeOverlap: the flush decision's interval test equals the
@@ -97,4 +102,72 @@ func VerifDirectCopy() {
 	}
 	verif.Assert(same, "D2H(H2D(x)) differs from x")
 	verif.Observe(uint64(back[0]))
+}
+
+// VerifWGSplit (C18/C08): the unified multi-GPU launch splits the grid so that
+// every work-group is accepted by exactly one GPU's filter, the real grid
+// builder announces for each GPU exactly the size of its range and produces
+// exactly those work-groups, and the ranges cover the whole grid.
+func VerifWGSplit() {
+	grids := [][3]int{{4, 4, 1}, {2, 8, 1}, {8, 2, 1}, {2, 6, 3}, {5, 1, 1}, {3, 3, 2}, {1, 7, 2}}
+	g := grids[verif.Choice(verif.Param("splitGrids", len(grids)))]
+	cuSets := [][]int{{1, 1}, {64, 64}, {2, 3}, {1, 1, 1, 1}, {4, 2, 1, 1}, {3}}
+	cus := cuSets[verif.Choice(len(cuSets))]
+	wgs := [3]uint16{2, 2, 1}
+	d := &Driver{}
+	d.TickingComponent = sim.NewTickingComponent("Driver", simstub.NewEngine(), 1*sim.GHz, d)
+	d.gpuPort = sim.NewPort(d, 4, 4, "Driver.ToGPUs")
+	d.devices = append(d.devices, &internal.Device{ID: 0, Type: internal.DeviceTypeCPU})
+	unified := &internal.Device{ID: len(cus) + 1, Type: internal.DeviceTypeUnifiedGPU}
+	for i, n := range cus {
+		d.devices = append(d.devices, &internal.Device{ID: i + 1, Type: internal.DeviceTypeGPU, Properties: internal.DeviceProperties{CUCount: n}})
+		d.GPUs = append(d.GPUs, sim.NewPort(nil, 4, 4, "GPU"))
+		unified.UnifiedGPUIDs = append(unified.UnifiedGPUIDs, i+1)
+	}
+	d.devices = append(d.devices, unified)
+	ctx := &Context{pid: 1}
+	q := &CommandQueue{Context: ctx, GPUID: unified.ID}
+	cmd := &LaunchUnifiedMultiGPUKernelCommand{ID: "k"}
+	for range cus {
+		cmd.PacketArray = append(cmd.PacketArray, &kernels.HsaKernelDispatchPacket{
+			WorkgroupSizeX: wgs[0], WorkgroupSizeY: wgs[1], WorkgroupSizeZ: wgs[2],
+			GridSizeX: uint32(g[0])*uint32(wgs[0]) - 1, GridSizeY: uint32(g[1]) * uint32(wgs[1]), GridSizeZ: uint32(g[2]) * uint32(wgs[2])})
+		cmd.DPacketArray = append(cmd.DPacketArray, Ptr(0x1000))
+	}
+	q.commands = []Command{cmd}
+	verif.Assert(d.processUnifiedMultiGPULaunchKernelCommand(cmd, q), "launch command not processed")
+	total := g[0] * g[1] * g[2]
+	accepted := make([]int, total)
+	sum := 0
+	for _, m := range d.requestsToSend {
+		req, ok := m.(*protocol.LaunchKernelReq)
+		verif.Assert(ok && req.WGFilter != nil, "a launch request without a work-group filter")
+		if !ok || req.WGFilter == nil {
+			continue
+		}
+		mine := 0
+		for z := 0; z < g[2]; z++ {
+			for y := 0; y < g[1]; y++ {
+				for x := 0; x < g[0]; x++ {
+					if req.WGFilter(req.Packet, &kernels.WorkGroup{IDX: x, IDY: y, IDZ: z}) {
+						accepted[x+y*g[0]+z*g[0]*g[1]]++
+						mine++
+					}
+				}
+			}
+		}
+		gb := kernels.NewGridBuilder()
+		gb.SetKernel(kernels.KernelLaunchInfo{Packet: req.Packet, WGFilter: req.WGFilter})
+		verif.Assert(gb.NumWG() == mine, "the number of work-groups announced to a GPU differs from the number its filter accepts")
+		produced := 0
+		for gb.NextWG() != nil {
+			produced++
+		}
+		verif.Assert(produced == mine, "the number of work-groups a GPU produces differs from the number its filter accepts")
+		sum += mine
+	}
+	for _, n := range accepted {
+		verif.Assert(n == 1, "a work-group is executed by no GPU or by more than one GPU")
+	}
+	verif.Assert(sum == total, "the per-GPU shares do not add up to the grid")
 }
